@@ -1,3 +1,5 @@
+#[cfg(feature = "iggy_verif")]
+use crate::verif::tokio;
 use crate::client::Client;
 use crate::consumer::{Consumer, ConsumerKind};
 use crate::diagnostic::DiagnosticEvent;
